@@ -48,6 +48,17 @@ def generate(seed, tier):
         if host_phase and x < 0.25:
             ops.append({'op': 'src', 'src': ro.choice(PHASE_TEXTS)})
             continue
+        if x < 0.13:
+            # spellings the renderer never produces: backslashes in non-raw strings; "methods" that are not builtins,
+            # applied to plain data as call / method / pipe (today: undefined function)
+            recv = ro.choice(['S', 'L', 'D', '%msg%', 'N', '"abc"', '[1, 2]', '{"a": 1}', 'HL[0]'])
+            meth = ro.choice(['encode', '__iter__', '__class__', 'format', '__getattribute__', 'copy', 'title', '__reduce__', '__dir__', 'append',
+                              '__len__', 'count', 'index', 'as_tuple', 'conjugate', 'clear', 'fromkeys', 'popitem', '__init_subclass__', 'to_bytes'])
+            arg = ro.choice(['', '"upper"', '1', 'S'])
+            ops.append({'op': 'src', 'src': ro.choice([
+                'V7 = %s.%s(%s)\nV7' % (recv, meth, arg), 'V7 = %s | %s\nV7' % (recv, meth), 'V7 = %s(%s)\nV7' % (meth, recv),
+                'V8 = match("a1", "\\d+")\nV8', 'V8 = "C:\\dir" + "\\q"\nV8', 'replace("a\\qb", "\\q", "-")', "V8 = 'x\\y' + \"\\z\"\nV8"])})
+            continue
         ops.append({'op': 'apply', 'pick': [ro.randrange(10 ** 6) for _ in range(3)], 'depth': ro.choice([1, 1, 2, 2, 3]),
                     'shape_seed': ro.randrange(2 ** 32), 'store': ro.choice(['name', 'name', 'item', 'none']), 'known': ro.random() < 0.5,
                     'style': gen.style(S['render']), 'entropy': ro.randrange(2 ** 32)})
